@@ -141,7 +141,7 @@ def run(run):
     for t in ["{{#switch:|1=z}}", "{{#if:|1=z}}", "{{tpl||1=z}}", "{|\n| [http://x.y/''x'' ''|| c]\n|}"]:
         texts.append(t); klass.append("corpus")
     for t in ["==<pre>x==\n", "== a <pre> b ==\ntext", "==<pre>==\n</pre>", "=== x<pre>y</pre> ===\n", "==<nowiki>x</nowiki>==\n",
-              "== {{a|x}} ==\n", "==[[a]]==\n* i", "==\n", "== ==\n", "=====\n"]:
+              "== {{a|x}} ==\n", "==[[a]]==\n* i", "==\n", "== ==\n", "=====\n", "== {{\nfoo}} ==", "== [[a|\nb]] ==\n"]:
         texts.append(t); klass.append("corpus")
     for t in ["a" + MAGIC + "b", "{{X" + MAGIC + "}}", "[[" + MAGIC + "]]", "<b>" + MAGIC, "* " + MAGIC + "\n"]:
         texts.append(t); klass.append("placeholder")
@@ -189,6 +189,10 @@ def run(run):
         extra = ":placeholder-in-input" if has_magic else (":heading-line-with-pre" if "level" in names and "<pre" in texts[i].lower() else "")
         if not extra and "level" in names and re.search(r"^=+[^\n]*=[ \t]+=+[ \t]*$", texts[i], flags=re.M):
             extra = ":heading-closing-equals-separated-by-blank"
+        if not extra and "level" in names and any(
+                ln.lstrip().startswith("=") and (ln.count("{{") > ln.count("}}") or ln.count("[[") > ln.count("]]"))
+                for ln in texts[i].split("\n")):
+            extra = ":heading-title-spans-lines"
         run.property_failure("c01:not-well-formed:%s%s" % (names, extra),
                              "parse(%r, %r) returned a tree violating clause(s) %s" % (texts[i][:300], kw, names),
                              {"text": texts[i], "kw": kw})
